@@ -117,6 +117,7 @@ SchAfterStep(ev) ==
 
 Expect(w, c, ev) ==
   IF c.k = "ins" THEN CmdIns(w.rows, c)
+  ELSE IF c.k = "load" THEN CmdLoad(w.rows, c)
   ELSE IF c.k = "union" THEN CmdUnion(w.rows, c)
   ELSE IF c.k = "set" THEN CmdSet(w.rows, c)
   ELSE IF c.k = "subsume" THEN CmdSubsume(w.rows, c)
@@ -132,6 +133,7 @@ Expect(w, c, ev) ==
   ELSE IF c.k = "pop" THEN [rows |-> IF Len(w.stack) > 0 THEN w.stack[Len(w.stack)].rows ELSE w.rows, ok |-> Len(w.stack) > 0]
   ELSE IF c.k = "rule" THEN [rows |-> w.rows, ok |-> c.r \notin w.active]
   ELSE IF c.k = "fdecl" THEN [rows |-> w.rows, ok |-> c.f \notin w.declf]
+  ELSE IF c.k = "size" THEN [rows |-> w.rows, ok |-> c.f \in w.declf]
   ELSE IF c.k = "probe" THEN [rows |-> w.rows, ok |-> c.ok = 1]
   ELSE [rows |-> w.rows, ok |-> (c.k # "bad")]           \* push, bad, noop
 
@@ -194,7 +196,11 @@ Judge(w, ev, exp, obs) ==
   /\ (cmpst /\ exact /\ exp.ok /\ ev.res = "ok" /\ ~IsWild(exp.rows) /\ obs # exp.rows) =>
         (Bad("state-mismatch") /\ PrintT(<<"DIFF", l, ToJson([missing |-> exp.rows \ obs, extra |-> obs \ exp.rows])>>))
   /\ (cmpst /\ ~exp.ok /\ ev.c.k \in {"check", "bad", "probe", "rule", "fdecl", "pop"} /\ obs # w.rows) => Bad("state-changed-by-rejected-command")
-  /\ (cmpst /\ ev.c.k = "extract" /\ exp.ok /\ ev.res = "ok") => JudgeExtract(ev, exp)
+  /\ (exact /\ ev.c.k = "extract" /\ exp.ok /\ ev.res = "ok") => JudgeExtract(ev, exp)
+  /\ (exact /\ ev.c.k = "size" /\ exp.ok /\ ev.res = "ok") =>
+        LET o == OutOf(ev, "size") IN
+        /\ Has(o, "none") => Bad("size-no-output")
+        /\ (~Has(o, "none") /\ o.n # Cardinality({r \in exp.rows : r.f = ev.c.f})) => Bad("table-size-differs")
   /\ (cmpst /\ ev.c.k = "sstep" /\ sch.ok /\ ~w.tainted /\ Has(ev, "sched")) => JudgeSStep(w, ev)
   /\ (cmpst /\ exact /\ ev.res = "ok" /\ ev.c.k = "run" /\ Has(ev, "upd") /\ exp.ok /\ ev.upd # (IF exp.upd THEN 1 ELSE 0)) => Bad("updated-flag")
 
@@ -227,6 +233,9 @@ TCmd ==
          obs == IF cmpst THEN AbsOf(ev) ELSE exp.rows
          w2 == After(w, c, ev, obs)
      IN /\ Judge(w, ev, exp, obs)
+        \* history marker used to classify later divergences of the encoded treatments (C11)
+        /\ (c.k = "subsume" /\ LET ea == EvalGArgs(w.rows, c.a, 1, <<>>) IN RowsAt(ea[1], c.f, ea[2]) = {})
+              => PrintT(<<"NOTE", l, "subsume-created-the-row">>)
         /\ (cmpst /\ Has(ev, "otabs") /\ ~Has(idle, "none")
               /\ Canonize(RawRows([tabs |-> ev.otabs, canon |-> ev.ocanon, cont |-> ev.ocont])) # idle.rows) => Bad("clone-interference")
         /\ res' = ev.res /\ prog' = prog /\ cmpst' = cmpst /\ cur' = slot /\ other' = idle
